@@ -100,8 +100,10 @@ class IncomingMessageHandler(IncomingMessageHandler15):
         }
         for key, buffer_message in node_messages.items():
             await gateway.send(buffer_message, message_buffer=False)
-            # clear the sleep buffer for this node
-            message_buffer.set_messages.pop(key)
+            # clear the sleep buffer for this node, unless a concurrent send
+            # replaced the message while it was being written
+            if message_buffer.set_messages.get(key) is buffer_message:
+                message_buffer.set_messages.pop(key)
 
         return message
 
